@@ -178,17 +178,29 @@ impl<'a, P: ProcessRun> Run<'a, P> {
     #[verifier::external_body]
     fn process_ca_task(
         &self, task: CaTask<P::PubPoint>, tasks: &SegQueue<Task<P::PubPoint>>, metrics: &mut RunMetrics,
+        Tracked(clk): Tracked<&mut Clock>,
     ) -> (r: Result<(), Failed>)
         requires task.cert.parent is None ==>
             (task.cert.tal as int) < self.validation.tals@.len()
             && ta_bound(&*task.cert, &self.validation.tals@[task.cert.tal as int])
             && ta_from(self, &*task.cert),
+        ensures
+            // C33 (ASSUMED, from its body in src/engine.rs): every Err exit of process_ca_task comes after
+            // run_failed (the map_err closure) or after had_err was seen set; the flag is never cleared
+            r is Err ==> final(clk).failed,
+            old(clk).failed ==> final(clk).failed,
     { unimplemented!() }
 
+    // C33: marks the run as failed (had_err.store(true)); Run::process fails the run iff this flag is set
     #[verifier::external_body]
-    fn run_failed(&self, err: RunFailed)
+    fn run_failed(&self, err: RunFailed, Tracked(clk): Tracked<&mut Clock>)
+        ensures final(clk).failed,
     { unimplemented!() }
 }
+
+// ===== ghost view of Run::had_err (rewrite R20 threads it through run_failed / process_ca_task as an erased
+// argument; the AtomicBool itself is interior-mutable state behind `&self`, which a Verus contract cannot name)
+pub tracked struct Clock { pub ghost failed: bool }
 
 // ---------------------------------------------------------------- std functions without a vstd specification (assumed: their std definitions)
 pub assume_specification<T: core::marker::Destruct> [Option::<T>::or] (a: Option<T>, b: Option<T>) -> (r: Option<T>)
